@@ -5,6 +5,7 @@
 (* catch_unwind and logged).                                                *)
 (*   enc.all  {v, results: [{api, outcome, msg}]}                           *)
 (*   enc.nest {form, n, results}   a value nested n deep (n <= 64)          *)
+(*   enc.zone {zone, results}      DateTimes in one zone of the tz database  *)
 (*   enc.long {holder, ch, pad, n, results}  pad ASCII characters then n     *)
 (*        multi-byte ones, in a text-carrying holder, bare and under each    *)
 (*        display tag                                                        *)
@@ -20,6 +21,7 @@ CheckResults(what, rs, i) ==
 
 Check(e) == CASE e.op = "enc.all" -> CheckResults(<<"encoder on a constructible value", e.v.k>>, e.results, 1)
               [] e.op = "enc.nest" -> CheckResults(<<"encoder on a nested value", e.form, e.n>>, e.results, 1)
+              [] e.op = "enc.zone" -> CheckResults(<<"encoder on a DateTime in zone", e.zone>>, e.results, 1)
               [] e.op = "enc.long" -> CheckResults(<<"encoder on a long multi-byte text", e.holder, e.pad, e.n>>, e.results, 1)
               [] OTHER -> <<<<"SPEC", <<"unknown op", e.op>>>>>>
 
